@@ -10,6 +10,10 @@
 //!             paused clock, current-thread runtime, stepped to quiescence
 //!             after every op; observation after *every* op.
 //!  * "dgram": the real `DgramServer` over a mock datagram socket.
+//!  * "pre":   one request of any shape through a stack of any configuration
+//!             (Server.tla part 1b): who answers, with what.
+//!  * "sock":  a "size" case and a follow-up request through `DgramServer` /
+//!             `StreamServer` on real loopback sockets, multi-thread runtime.
 #[path = "../server.rs"]
 mod server;
 
@@ -212,6 +216,157 @@ fn run_size(input: &Value) -> Value {
     })
 }
 
+//------------ sock ----------------------------------------------------------
+
+/// The servers as deployed: a multi-thread runtime and the operating
+/// system's sockets (`impl AsyncDgramSock for UdpSocket`, `impl AsyncAccept
+/// for TcpListener`), on the loopback interface.
+fn sock_rt() -> &'static tokio::runtime::Runtime {
+    static RT: std::sync::OnceLock<tokio::runtime::Runtime> = std::sync::OnceLock::new();
+    RT.get_or_init(|| {
+        tokio::runtime::Builder::new_multi_thread()
+            .worker_threads(2)
+            .enable_all()
+            .build()
+            .unwrap()
+    })
+}
+
+const SOCK_WAIT: Duration = Duration::from_secs(30);
+
+/// A "size" case over real sockets, followed on the same socket /
+/// connection (pipelined, in one write) by a plain request: both are
+/// answered, each with its own ID, the stream answers correctly framed.
+fn run_sock(input: &Value) -> Value {
+    use std::io::{Read, Write};
+    let (udp, hint, spec, req_bytes, cfg) = size_inputs(input);
+    let id = 0x4321u16;
+    let id2 = 0x4322u16;
+    let follow = mk_query(id2, 17, None, false);
+    let before = panics();
+    let svc = ScriptSvc::<Vec<u8>>::default();
+    svc.script(id, vec![Item::RespX { spec, fb: None }], 1);
+    svc.script(id2, vec![Item::Resp { len: 0, optlen: 0, fb: None }], 1);
+    let st = Arc::new(stack_over(svc.clone(), &cfg));
+    let rt = sock_rt();
+    // (first answer, follow-up answer) as read from the wire; for streams
+    // the first element of each is the length prefix
+    let got: Result<Vec<(i64, Vec<u8>)>, &'static str> = if udp {
+        let sock = match rt.block_on(tokio::net::UdpSocket::bind("127.0.0.1:0")) {
+            Ok(s) => s,
+            Err(_) => return json!({"setup_failed": "bind"}),
+        };
+        let addr = sock.local_addr().unwrap();
+        let mut dcfg = dgram::Config::new();
+        dcfg.set_max_response_size(hint);
+        let srv = Arc::new(DgramServer::with_config(sock, VecBufSource, st, dcfg));
+        let run = {
+            let s = srv.clone();
+            rt.spawn(async move { s.run().await })
+        };
+        let client = std::net::UdpSocket::bind("127.0.0.1:0").unwrap();
+        client.set_read_timeout(Some(SOCK_WAIT)).unwrap();
+        let mut out = vec![];
+        let mut res = Ok(());
+        for q in [&req_bytes, &follow] {
+            let mut buf = vec![0u8; 65536];
+            if client.send_to(q, addr).is_err() {
+                res = Err("send");
+                break;
+            }
+            match client.recv_from(&mut buf) {
+                Ok((n, from)) if from == addr => out.push((-1, buf[..n].to_vec())),
+                Ok(_) => {
+                    res = Err("wrong-source");
+                    break;
+                }
+                Err(_) => {
+                    res = Err("timeout");
+                    break;
+                }
+            }
+        }
+        let _ = srv.shutdown();
+        run.abort();
+        res.map(|_| out)
+    } else {
+        let listener = match rt.block_on(tokio::net::TcpListener::bind("127.0.0.1:0")) {
+            Ok(s) => s,
+            Err(_) => return json!({"setup_failed": "bind"}),
+        };
+        let addr = listener.local_addr().unwrap();
+        let srv = Arc::new(StreamServer::with_config(listener, VecBufSource, st, stream::Config::new()));
+        let run = {
+            let s = srv.clone();
+            rt.spawn(async move { s.run().await })
+        };
+        let res = (|| {
+            let mut c = std::net::TcpStream::connect(addr).map_err(|_| "connect")?;
+            c.set_read_timeout(Some(SOCK_WAIT)).unwrap();
+            let mut both = frame(&req_bytes);
+            both.extend_from_slice(&frame(&follow));
+            c.write_all(&both).map_err(|_| "write")?;
+            let mut out = vec![];
+            for _ in 0..2 {
+                let mut l = [0u8; 2];
+                c.read_exact(&mut l).map_err(|_| "timeout")?;
+                let n = u16::from_be_bytes(l) as usize;
+                let mut body = vec![0u8; n];
+                c.read_exact(&mut body).map_err(|_| "timeout")?;
+                out.push((n as i64, body));
+            }
+            Ok(out)
+        })();
+        let _ = srv.shutdown();
+        run.abort();
+        res
+    };
+    if panics() != before {
+        return json!({"panic": true});
+    }
+    let got = match got {
+        Ok(g) => g,
+        Err(e) => return json!({"n": 0, "failed": e}),
+    };
+    // the two request tasks of a connection run concurrently: match by ID
+    let find = |want: u16| got.iter().find(|g| describe(&g.1)["id"] == json!(want));
+    let (Some(first), Some(second)) = (find(id), find(id2)) else {
+        return json!({"n": got.len(), "failed": "ids"});
+    };
+    let dg = describe(&first.1);
+    let reqd = describe(&req_bytes);
+    let good = dg["parses"] == json!(true)
+        && dg["qr"] == json!(true)
+        && dg["rd"] == json!(true)
+        && dg["q"] == reqd["q"]
+        && dg["ns"] == json!(0);
+    let d2 = describe(&second.1);
+    let then = if second.0 >= 0 && second.0 as usize != second.1.len() {
+        "misframed"
+    } else {
+        kind_of(&d2, Some(&describe(&follow)["q"]))
+    };
+    let s = svc.0.lock().unwrap();
+    let (reserved, hint_after) = s
+        .arrived
+        .iter()
+        .find(|a| a.0 == id)
+        .map(|a| (a.1 as i64, a.2.map(|h| h as i64).unwrap_or(70000)))
+        .unwrap_or((-1, -2));
+    json!({
+        "n": 1,
+        "len": dg["len"],
+        "tc": dg["tc"],
+        "trunc": dg["an"] == json!(0),
+        "opt": dg["opt"],
+        "good": good,
+        "reserved": reserved,
+        "hint": hint_after,
+        "frame": first.0,
+        "then": then,
+    })
+}
+
 //------------ pre -----------------------------------------------------------
 
 /// One request of any shape through a stack of any configuration: who
@@ -333,6 +488,10 @@ fn run_pre(input: &Value) -> Value {
 
 fn script_for(svc: &str) -> Vec<Item> {
     let r = |fb| Item::Resp { len: 0, optlen: 0, fb };
+    let rx = |recipe: &str, optlen: usize| Item::RespX {
+        spec: AnsSpec { len: 0, optlen, recipe: recipe.into(), ..Default::default() },
+        fb: None,
+    };
     let reconf = |halfticks: u32| {
         Some(ServiceFeedback::Reconfigure { idle_timeout: Some(HALF * halfticks) })
     };
@@ -354,6 +513,15 @@ fn script_for(svc: &str) -> Vec<Item> {
             Item::Feedback(ServiceFeedback::Reconfigure { idle_timeout: Some(HALF * 4) }),
             r(None),
         ],
+        // the service attaches an OPT record although the request had none
+        "strip" => vec![rx("plain", 11)],
+        "strip2" => vec![rx("plain", 11), rx("rewind", 11)],
+        // the service fills its message until a push fails
+        "fill" => vec![rx("filllimit", 0)],
+        "fill64" => vec![rx("fill64k", 0)],
+        "ffail" => vec![Item::FailWith("formerr")],
+        "refuse" => vec![Item::FailWith("refused")],
+        "nimp" => vec![Item::FailWith("notimp")],
         "single" => vec![r(None)],
         "stream2" => vec![r(None), r(None)],
         "fail" => vec![Item::Fail],
@@ -384,6 +552,8 @@ fn kind_of(d: &Value, want_q: Option<&Value>) -> &'static str {
         Some(0) => "ans",
         Some(1) => "formerr",
         Some(2) => "servfail",
+        Some(4) => "notimp",
+        Some(5) => "refused",
         _ => "other",
     }
 }
@@ -411,6 +581,9 @@ fn run_conn(input: &Value) -> Value {
         cc.set_max_queued_responses(qcap);
         cfg.set_connection_config(cc);
         cfg.set_max_concurrent_connections(limit);
+        if !input["aam"].as_bool().unwrap_or(true) {
+            cfg.set_accept_connections_at_max(false);
+        }
         let srv = Arc::new(if defaults {
             StreamServer::new(listener.clone(), VecBufSource, st)
         } else {
@@ -443,12 +616,21 @@ fn run_conn(input: &Value) -> Value {
                         "short" => frame(&[1, 2, 3, 4, 5]),
                         "reply" => frame(&mk_query(id, 5 + 4 + r as usize, Some(1232), true)),
                         _ => {
-                            svc.script(id, script_for(op["svc"].as_str().unwrap_or("single")), 0);
-                            frame(&mk_query(id, 5 + 4 + r as usize, Some(1232), false))
+                            let kind = op["svc"].as_str().unwrap_or("single");
+                            svc.script(id, script_for(kind), 0);
+                            let ip: std::net::IpAddr = format!("192.0.2.{}", c).parse().unwrap();
+                            frame(&request_for(kind, id, 5 + 4 + r as usize, Some(1232), ip))
                         }
                     };
                     if what != "short" {
-                        questions.insert(id, describe(&bytes[2..])["q"].clone());
+                        // Server.tla part 1b: the cookie middleware's own
+                        // FORMERR carries no question section
+                        let q = if op["svc"].as_str() == Some("cklen") {
+                            json!([])
+                        } else {
+                            describe(&bytes[2..])["q"].clone()
+                        };
+                        questions.insert(id, q);
                     }
                     if let Some(h) = ios.get(&c) {
                         if what == "partial" {
@@ -482,6 +664,15 @@ fn run_conn(input: &Value) -> Value {
                 "shutdown" => {
                     shut = true;
                     let _ = srv.shutdown();
+                }
+                // StreamServer::reconfigure: a new limit / aam, the
+                // connection configuration the server was built with
+                "sreconf" => {
+                    let mut cfg = stream::Config::new();
+                    cfg.set_connection_config(cc);
+                    cfg.set_max_concurrent_connections(r as usize);
+                    cfg.set_accept_connections_at_max(op["what"].as_str() != Some("noaam"));
+                    let _ = srv.reconfigure(cfg);
                 }
                 _ => {}
             }
@@ -563,7 +754,13 @@ fn run_dgram(input: &Value) -> Value {
                         _ if op["svc"].as_str() == Some("huge") => {
                             mk_query(id, 9 + r as usize, Some(65535), false)
                         }
-                        _ => mk_query(id, 9 + r as usize, None, false),
+                        _ => request_for(
+                            op["svc"].as_str().unwrap_or("single"),
+                            id,
+                            9 + r as usize,
+                            None,
+                            from.ip(),
+                        ),
                     };
                     sock.deliver(&bytes, from);
                 }
@@ -601,6 +798,7 @@ fn main() {
     count_panics();
     run_cases_counting(|input| match input["kind"].as_str() {
         Some("size") => run_size(input),
+        Some("sock") => run_sock(input),
         Some("pre") => run_pre(input),
         Some("conn") => run_conn(input),
         Some("dgram") => run_dgram(input),
